@@ -72,7 +72,7 @@ let handle ws = match ws with
         | RArrive Fin -> if not !fin then (fin := true; ending := Finished)
         | RArrive (Abort e) -> if not !fin then (fin := true; ending := Broken e)
         | _ -> ()) acts;
-      let (evs, fin_) = request_outcome settings_verdict side !flat !ending in
+      let (evs, fin_) = request_outcome rfc_settings_verdict side !flat !ending in
       m ^ " | " ^ String.concat " " (("S" :: List.concat_map event_str evs) @ ["T"; final_str fin_])
   | _ -> "driver-error unknown-case"
 let () = run_lines handle
